@@ -149,6 +149,9 @@ def create_post(C):
         # the stored timeout has each of the seven units equal to the keyword given, or 0
         And(*[And(t1[u]['timeout'].has(x), t1[u]['timeout'][x] == If(C.timeout.has(x), C.timeout[x], 0)) for x in UNITS]),
         t1[u]['time'] >= c0, t1[u]['time'] <= c1,
+        # the id is the hex of a UUID object created by this call
+        EX('ref', lambda r: And(Not(z3.Select(C.old_st.alloc, r)), C.st.heap_arr_cf('UUID', 'hex')[r] == u),
+           pats=lambda r: [C.st.heap_arr_cf('UUID', 'hex')[r]]),
         # sweep first: the other entries are a swept sub-table of the old one
         FA('str', lambda k: Implies(And(t1.has(k), k != u), And(t0.has(k), t1.raw(k) == t0.raw(k)))),
         FA('str', lambda k: Implies(And(t0.has(k), c1 < expiry(t0, k)), t1.has(k))),
@@ -158,16 +161,24 @@ def create_post(C):
 
 contract('InstanceManager.create_instance', file=F, props=['C17', 'C16'], ghost=GHOST_SRV,
          params=dict(self=IM, timeout=TIMEOUT), returns=STR, locals=dict(instance_data=INSTREC), allocates=True,
-         requires=lambda C: And(wf_im(C.self), _uuid_new(C)), ensures=create_post,
+         requires=lambda C: And(wf_im(C.self), uuid_ok(C, C.self)), ensures=lambda C: And(*(list(create_post(C).children()) + [uuid_ok(C, C.self)])),
          modifies=['InstanceManager._instances', '$now'], ghost_mods=['bptk.g_destroyed'])
 
 
-def _uuid_new(C):
+def _uuid_new(C, im=None):
     """uuid1().hex is an identifier not in use (assumption on the uuid library): modelled by the precondition that the
     hex of any object allocated later differs from every key -- stated on the heap field UUID.hex"""
     hx = C.st.heap_arr_cf('UUID', 'hex')
-    t = C.self._instances
+    t = (im if im is not None else C.self)._instances
     return FA('ref', lambda r: Implies(Not(z3.Select(C.st.alloc, r)), Not(t.has(hx[r]))), pats=lambda r: [hx[r]])
+
+
+def uuid_ok(C, im):
+    """the uuid library assumption in inductive form: identifiers of different UUID objects differ, and no object that
+    is yet to be allocated carries an identifier already in the table"""
+    hx = C.st.heap_arr_cf('UUID', 'hex')
+    return And(_uuid_new(C, im),
+               FA('ref', 'ref', lambda r1, r2: Implies(r1 != r2, hx[r1] != hx[r2]), pats=lambda r1, r2: [hx[r1], hx[r2]]))
 
 
 contract('InstanceManager._delete_instance', file=F, props=['C17', 'C16'], params=dict(self=IM, instance_id=STR),
